@@ -92,6 +92,10 @@ def adapter_batch(which):
         return {"type": "local"}
     if which == "slurm":
         return {"type": "slurm", "host": "h", "bank": "b", "queue": "q"}
+    if which == "flux":
+        import fakeenv
+        fakeenv.install_flux()
+        return {"type": "flux", "host": "h", "bank": "b", "queue": "q"}
     return {"type": "lsf", "host": "h", "bank": "b", "queue": "q"}
 
 
@@ -137,6 +141,17 @@ for _which, _ext in (("local", ".sh"), ("slurm", ".slurm.sh"), ("lsf", "lsf.sh")
                                              "global.parameters": {"V": {"values": ["v", "v" + _ext], "label": "%%"}}},
                        False, _tmp, _which))
     _steps[3]["run"]["cmd"] = "echo $(V)"
+
+
+# instance names near the file-name limit that differ in their last character only, scripts in one
+# temporary directory (seeded change C10-m cut the Flux script names to fit `.restart.flux.sh`)
+for _which in ("local", "slurm", "lsf", "flux"):
+    _long = "L" * 241
+    CORPUS.append(("long-names-%s-tmp" % _which,
+                   {"description": {"name": "s", "description": "d"},
+                    "study": [{"name": "s", "description": "d", "run": {"cmd": "echo $(V)", "nodes": 1, "procs": 1}}],
+                    "global.parameters": {"V": {"values": [_long + "1", _long + "2"], "label": "%%"}}},
+                   False, True, _which))
 
 
 def launch_monitor(dag2, which, scripts, hash_ws, use_tmp):
@@ -243,7 +258,7 @@ def monitor_factory(ctx, force=None):
         mon = SS.workspace_monitor(root, dag, hash_ws=hash_ws)
         nbase = len(mon)
         # script generation with a real adapter
-        which = ctx.rng.choice(["local", "local", "slurm", "lsf"])
+        which = ctx.rng.choice(["local", "local", "slurm", "lsf", "flux"])
         use_tmp = ctx.rng.random() < 0.3
         if force is not None:
             use_tmp, which = force
